@@ -19,6 +19,7 @@
 //	R6 time.Now()                  -> vrt.Now()
 //	R7 os.Exit(c)                  -> vrt.Exit(c)
 //	R8 accesses to variables captured by go closures -> preceded by vrt.Acc(&v, isWrite, pos)
+//	R11 statements performing sync/atomic operations -> preceded by one vrt.AtomicYield() per operation
 //	R10 func main() { B } in package main -> func main() { vrt.Main(func(){ B }) }
 //
 // Anything it cannot rewrite soundly is a hard error (exit 1), never skipped
@@ -67,7 +68,7 @@ var (
 )
 
 type stats struct {
-	Go, Send, Recv, RangeChan, Close, Mutex, Wg, Rand, MapRange, Now, Exit, Acc int
+	Go, Send, Recv, RangeChan, Close, Mutex, Wg, Rand, MapRange, Now, Exit, Acc, Atomic int
 	Files                                                                       []string
 }
 
@@ -415,6 +416,15 @@ func (rw *rewriter) findShared(body *ast.BlockStmt) {
 					if ok, _ := namedIs(t, "sync", "WaitGroup"); ok {
 						return true
 					}
+					if ok, _ := namedIs(t, "sync", "RWMutex"); ok {
+						return true
+					}
+					if pt, ok := t.(*types.Pointer); ok {
+						t = pt.Elem()
+					}
+					if nt, ok := t.(*types.Named); ok && nt.Obj().Pkg() != nil && nt.Obj().Pkg().Path() == "sync/atomic" {
+						return true
+					}
 					if written[obj] {
 						rw.shared[obj] = true
 					}
@@ -494,11 +504,119 @@ func (rw *rewriter) block(b *ast.BlockStmt) {
 func (rw *rewriter) stmts(list []ast.Stmt) []ast.Stmt {
 	var out []ast.Stmt
 	for _, st := range list {
+		// R11: one scheduling point in front of the statement per sync/atomic operation it performs
+		// itself (not in nested blocks or function literals).  The operations of one simple statement
+		// are one step of the thread: fewer interleavings than the hardware allows, never an impossible one.
+		nat := rw.atomicOps(st)
+		if fs, ok := st.(*ast.ForStmt); ok && fs.Cond != nil && rw.atomicIn(fs.Cond) > 0 {
+			// for init; cond; post {B}  ->  for init; ; post { vrt.AtomicYield(); if !(cond) {break}; B }
+			guard := &ast.IfStmt{Cond: &ast.UnaryExpr{Op: token.NOT, X: &ast.ParenExpr{X: fs.Cond}}, Body: &ast.BlockStmt{List: []ast.Stmt{&ast.BranchStmt{Tok: token.BREAK}}}}
+			fs.Cond = nil
+			fs.Body.List = append([]ast.Stmt{guard}, fs.Body.List...)
+		}
 		pre, repl := rw.stmt(st)
+		for i := 0; i < nat; i++ {
+			out = append(out, &ast.ExprStmt{X: rw.call("AtomicYield")})
+			rw.st.Atomic++
+		}
 		out = append(out, pre...)
 		out = append(out, repl)
 	}
 	return out
+}
+
+// atomicOps counts the sync/atomic operations a statement performs outside nested blocks.
+func (rw *rewriter) atomicOps(st ast.Stmt) int {
+	n := 0
+	switch s := st.(type) {
+	case *ast.ExprStmt:
+		n = rw.atomicIn(s.X)
+	case *ast.AssignStmt:
+		for _, e := range s.Rhs {
+			n += rw.atomicIn(e)
+		}
+		for _, e := range s.Lhs {
+			n += rw.atomicIn(e)
+		}
+	case *ast.IncDecStmt:
+		n = rw.atomicIn(s.X)
+	case *ast.ReturnStmt:
+		for _, e := range s.Results {
+			n += rw.atomicIn(e)
+		}
+	case *ast.IfStmt:
+		if s.Init != nil {
+			n += rw.atomicOps(s.Init)
+		}
+		n += rw.atomicIn(s.Cond)
+	case *ast.ForStmt:
+		if s.Init != nil {
+			n += rw.atomicOps(s.Init)
+		}
+		if s.Post != nil && rw.atomicOps(s.Post) > 0 {
+			fatal("%s: sync/atomic operation in a for-post statement; not supported", rw.pos(s))
+		}
+	case *ast.SwitchStmt:
+		if s.Init != nil {
+			n += rw.atomicOps(s.Init)
+		}
+		if s.Tag != nil {
+			n += rw.atomicIn(s.Tag)
+		}
+	case *ast.DeclStmt:
+		if gd, ok := s.Decl.(*ast.GenDecl); ok {
+			for _, sp := range gd.Specs {
+				if vs, ok := sp.(*ast.ValueSpec); ok {
+					for _, e := range vs.Values {
+						n += rw.atomicIn(e)
+					}
+				}
+			}
+		}
+	case *ast.SendStmt:
+		n = rw.atomicIn(s.Value)
+	case *ast.DeferStmt:
+		if rw.atomicIn(s.Call) > 0 {
+			fatal("%s: deferred sync/atomic operation; not supported", rw.pos(s))
+		}
+	case *ast.LabeledStmt:
+		n = rw.atomicOps(s.Stmt)
+	}
+	return n
+}
+
+// atomicIn counts calls of sync/atomic functions and of methods of sync/atomic types in an expression.
+func (rw *rewriter) atomicIn(e ast.Expr) int {
+	n := 0
+	ast.Inspect(e, func(m ast.Node) bool {
+		if _, ok := m.(*ast.FuncLit); ok {
+			return false
+		}
+		c, ok := m.(*ast.CallExpr)
+		if !ok {
+			return true
+		}
+		var id *ast.Ident
+		switch f := c.Fun.(type) {
+		case *ast.SelectorExpr:
+			id = f.Sel
+		case *ast.Ident:
+			id = f
+		case *ast.IndexExpr: // generic instantiation
+			if se, ok := f.X.(*ast.SelectorExpr); ok {
+				id = se.Sel
+			}
+		}
+		if id != nil {
+			if o := rw.info.Uses[id]; o != nil && o.Pkg() != nil && o.Pkg().Path() == "sync/atomic" {
+				if _, isFunc := o.(*types.Func); isFunc {
+					n++
+				}
+			}
+		}
+		return true
+	})
+	return n
 }
 
 // stmt rewrites one statement; pre are statements to insert in front of it.
@@ -1101,7 +1219,17 @@ func (rw *rewriter) callExpr(n *ast.CallExpr) ast.Expr {
 					fatal("%s: sync.WaitGroup.%s is not modelled", rw.pos(n), se.Sel.Name)
 				}
 			}
-			for _, other := range []string{"RWMutex", "Cond", "Once", "Map", "Pool"} {
+			if ok, ptr := namedIs(recvT, "sync", "RWMutex"); ok {
+				recv := rw.addr(se.X, ptr)
+				switch se.Sel.Name {
+				case "Lock", "Unlock", "RLock", "RUnlock":
+					rw.st.Mutex++
+					return rw.call("RW"+se.Sel.Name, recv)
+				default:
+					fatal("%s: sync.RWMutex.%s is not modelled", rw.pos(n), se.Sel.Name)
+				}
+			}
+			for _, other := range []string{"Cond", "Once", "Map", "Pool"} {
 				if ok, _ := namedIs(recvT, "sync", other); ok {
 					fatal("%s: sync.%s is not modelled", rw.pos(n), other)
 				}
